@@ -1,5 +1,5 @@
 """C14 - safe quoting / unquoting (ural/quote.py)."""
-from harness import core
+from harness import core, harvest
 from harness.core import enc, dec, guarded
 
 PID = "C14"
@@ -51,6 +51,12 @@ def run(ctx):
     ctx.extra["inputs_focus"] = len(data["focus"])
     ctx.extra["inputs_exhaustive"] = len(data["all"])
     ctx.extra["inputs_random"] = len(data["rnd"])
+    hv = set()
+    for fn in ("safely_unquote_auth_item", "safely_unquote_path", "safely_unquote_query_item", "safely_unquote_fragment", "safely_quote", "upper_quoted"):
+        for args, _kw in harvest.inputs(ctx, fn):
+            hv.add(tuple(enc(args[0])))
+    ctx.extra["test_suite_inputs"] = len(hv)
+    strings = sorted(set(strings) | hv)
     cases = [{"f": f, "s": list(s)} for s in strings for f in FUNS]
     failing = core.judge(ctx, "harness.checks.c14", cases, "Trace_C14", TRACE_CFG, describe,
                          nontrivial=lambda c, e: (c["f"], tuple(c["s"])) if e["r"] != c["s"] else None)
